@@ -3161,22 +3161,23 @@ def _throw_to_py_ast(ctx: GeneratorContext, node: Throw) -> GeneratedPyAST[ast.e
 
     exc_ast = gen_py_ast(ctx, node.exception)
 
+    # The exception and its cause are chained like the arguments of a call, so the
+    # exception is evaluated first even if the cause brings statements of its own
     cause: ast.expr | None
-    cause_deps: Iterable[PyASTNode]
     if (
         node.cause is not None
         and (cause_ast := gen_py_ast(ctx, node.cause)) is not None
     ):
-        cause = cause_ast.node
-        cause_deps = cause_ast.dependencies
+        deps, (exc, cause) = _chain_py_ast(exc_ast, cause_ast)
     else:
-        cause, cause_deps = None, []
+        deps, (exc,) = _chain_py_ast(exc_ast)
+        cause = None
 
-    raise_body = ast.Raise(exc=exc_ast.node, cause=cause)
+    raise_body = ast.Raise(exc=exc, cause=cause)
 
     return GeneratedPyAST(
         node=_noop_node(),
-        dependencies=list(chain(exc_ast.dependencies, cause_deps, [raise_body])),
+        dependencies=list(chain(deps, [raise_body])),
     )
 
 
